@@ -640,7 +640,7 @@ func init() {
 	register(ruleKleene)
 	addProp(&PropSpec{
 		ID:          "C11",
-		Rules:       []string{"R-KLEENE", "R-PAIR-P", "R-STATE", "R-STATUSFLOW", "R-EARLYEXIT", "R-FOUNDKEPT"},
+		Rules:       []string{"R-KLEENE", "R-PAIR-P", "R-STATE", "R-STATUSFLOW", "R-EARLYEXIT", "R-FOUNDKEPT", "R-CTORID", "R-SCRATCHSTATUS"},
 		Explanation: "The connectives are finite decision procedures over {false,true,unknown}×{error,nil}; their complete tables are extracted from the code by enumerating every acyclic path of the two boolean executors (branch conditions become guards over finite-domain atoms; returned operands become terms) and compared cell by cell with Kleene logic, including which operand is evaluated and in which order. Operand coherence (error ⇒ unknown) is R-PAIR-P.",
 		Decided:     []string{"R-KLEENE: complete tables of &&, ||, !, is unknown, exists (lax and strict), short-circuit arms and error columns", "R-PAIR-P: operands return coherent (outcome, error) pairs"},
 		NotDecided:  []string{"that operand evaluation itself yields the right outcome", "the error column of `is unknown` for non-cancellation errors (known finding under C08)"},
@@ -973,7 +973,7 @@ func init() {
 	register(ruleFilter)
 	addProp(&PropSpec{
 		ID:          "C10",
-		Rules:       []string{"R-FILTER", "R-STATE", "R-SCOPE", "R-PAIR-P", "R-PREDLOOP", "R-ONELEVEL", "R-EXECADDR", "R-COLLMONO"},
+		Rules:       []string{"R-FILTER", "R-STATE", "R-SCOPE", "R-PAIR-P", "R-PREDLOOP", "R-ONELEVEL", "R-EXECADDR", "R-COLLMONO", "R-UNWRAPTHREAD"},
 		Explanation: "The filter is a small decision procedure: its complete table over (unwrap, operand is an array, condition outcome, condition error) is extracted from the filter arm and compared with 'keep exactly the items whose condition is true, hand on the very same item, drop the others without aborting, abort only on an error'; @ is bound to the tested item and restored on every exit (typestate); the outcome→item mapping of predicate check expressions is extracted likewise.",
 		Decided: []string{"R-FILTER: table of the filter arm, identity of tested and forwarded item, unwrap-before-condition, @ binding, predicate-as-item mapping",
 			"R-STATE: @ restored on every exit of the condition executor", "R-SCOPE: the continuation is not evaluated while @ is rebound", "R-PAIR-P: an error from the condition is (failed, err), never (not found, err)"},
